@@ -18,6 +18,8 @@ use write_fonts::tables::layout::builders::{ClassDefBuilder, CoverageTableBuilde
 
 #[path = "c16/e2e.rs"]
 mod e2e;
+#[path = "c16/lookup.rs"]
+mod lookup;
 #[path = "c16/ppf1.rs"]
 mod ppf1;
 #[path = "c16/split2.rs"]
@@ -952,6 +954,11 @@ fn run(cfg: &Config, s: &mut Session) {
     }
     let mut rng = Rng::new(cfg.seed);
     let t = cfg.thorough();
+    // development aid: only the lookup-level / builder groups (never set by ./check)
+    if std::env::var("C16_ONLY").as_deref() == Ok("lookup") {
+        lookup::run(cfg, s, &mut rng);
+        return;
+    }
     fixed_cases(s, &mut rng);
     let n_cov = if t { 6000 } else { 700 };
     for i in 0..n_cov {
@@ -975,6 +982,7 @@ fn run(cfg: &Config, s: &mut Session) {
     e2e::run(cfg, s, &mut rng);
     split2::run_devs(cfg, s, &mut rng);
     e2e::run_pairs_build(cfg, s, &mut rng);
+    lookup::run(cfg, s, &mut rng);
 }
 
 fn main() {
